@@ -251,7 +251,7 @@ def select_cases(draw):
         mask = np.ones((size, size))
     if draw(st.booleans()):
         mask = mask.astype(draw(st.sampled_from(["int64", "float32", "bool"]))) if kind != "frac" else mask
-    tmode = draw(st.sampled_from(["attained", "attained", "free", "zero"]))
+    tmode = draw(st.sampled_from(["attained", "attained", "free", "zero", "above"]))        # above every cell mean: the empty selection
     return {"subaps": subaps, "mask": mask, "tmode": tmode, "tpick": draw(st.integers(0, 10**6)),
             "tfree": draw(gen.dyadic(0, 1, 4096)), "t2": draw(gen.dyadic(0, 1, 4096)), "t_as": draw(st.sampled_from(["python", "numpy"]))}
 
@@ -310,6 +310,8 @@ def select_body(ctx, case):
         t = attained[case["tpick"] % len(attained)]
     elif case["tmode"] == "zero":
         t = 0.0
+    elif case["tmode"] == "above":
+        t = 1.0 + case["tfree"] + 2.0 ** -20
     else:
         t = case["tfree"]
     if case.get("t_as") == "numpy":
@@ -335,8 +337,8 @@ def select_body(ctx, case):
                 if sel:
                     want_c.append([x * k, y * k])
                     want_f.append(means[x, y])
-        want_c = np.array(want_c, dtype=np.float64).reshape(-1, 2) if want_c else np.array([])
-        ctx.equal(np.asarray(coords, dtype=np.float64).reshape(want_c.shape) if len(coords) == len(want_c) else coords, want_c,
+        want_c = np.array(want_c, dtype=np.float64).reshape(-1, 2)          # a set of n cells is an (n, 2) array, also for n = 0
+        ctx.equal(np.asarray(coords, dtype=np.float64), want_c,
                   "findActiveSubaps: active cells (divisible mask %dx%d, %d subaps, t=%r)" % (size, size, subaps, t))
         ctx.close(np.asarray(fills, dtype=np.float64), np.array(want_f), 1e-12 if mask.dtype != np.float32 else 1e-6, "findActiveSubaps: fill factors = block means", scale=1.0, name="fill factors (%s mask)" % mask.dtype)
         if len(coords):
